@@ -76,6 +76,7 @@ def parseOpKind (name : String) (m : Option Nat) : Option OpKind :=
   match name, m with
   | "send", some m => some (.send m)
   | "try_send", some m => some (.trySend m)
+  | "try_force_send", some m => some (.tryForce m)
   | "call", some m => some (.call m)
   | "callw", some m => some (.callw m)
   | "try_call", some m => some (.tryCall m)
